@@ -111,6 +111,12 @@ def make_case(R):
         doc = {"ref": deep_ok(n), "k": [{"v": deep_ok(n), "id": 1}, {"v": 1, "id": 2}]}
         return {"kind": "deep-comparison", "query": R.choice(["$.k[?@.v == $.ref].id", "$.k[?@.v != $.ref].id", "$.k[?$.ref == @.v]"]), "doc_value": doc,
                 "doc_bytes": json.dumps(doc).encode(), "expect": "ok"}
+    if r < 0.755:
+        # large results: strings of 64 KiB and more, thousands of values (the output is one JSON array whatever its size)
+        n = R.choice([65535, 65536, 70000, 200000])
+        doc = [1, "x" * n, {"k": "y" * n, "j": [2, "z" * (n + 1)]}, list(range(3000)), "\u00e9" * n, {"s": "q" * 10, "t": "\"\\" * (n // 2)}]
+        return {"kind": "big-values", "query": R.choice(["$[*]", "$..*", "$[1,2]", "$[?@]", "$[2].j[*]", "$[3][*]", "$[::-1]", "$[5]", "$..k"]), "doc_value": doc,
+                "doc_bytes": json.dumps(doc, ensure_ascii=R.random() < 0.5).encode(), "expect": "ok"}
     if r < 0.765:
         # deeply nested but valid filter expressions: whatever find() does with them, the tool reports in its own words
         k = R.choice([40, 99, 100, 101, 120, 200, 300])
